@@ -130,8 +130,9 @@ CHECKS["C14"] = dict(
          "per prelude type (the real static_requirements of prelude.emb are what is evaluated), enum field width vs "
          "maximum_bits, enum values vs maximum_bits/is_signed, maximum_bits range, is_signed inference, bits <= 64, "
          "explicit size vs field size (named and anonymous bits), array element multiple of 8 bits.",
-    note="Only the numeric thresholds; attribute placement/duplication tables, reserved words, byte-order presence and "
-         "'no byte-oriented members in bits' are finite tables outside the claim.",
+    note="Numeric thresholds for every integer; byte-order presence with $default scoping, attribute placement/duplication/value "
+         "tables and 'no byte-oriented members in bits' as finite-domain harnesses through the whole front end (and header "
+         "generation for the (cpp) attributes).  Outside: reserved words as names (a finite list lookup).",
     design="DESIGN.md section 3 C14",
 )
 
@@ -143,8 +144,8 @@ CHECKS["C13"] = dict(
          "error located in the expression, no exception; plus the positional rules (field start/size, array length, "
          "existence condition, parameter definitions, passed parameters).  The domain is finite, so the paths enumerate it "
          "completely; nesting follows by induction because the checker sees a child only through its annotated type.",
-    note="[requires]/enum-value typing in attribute_checker is outside; the documented-vs-implemented mismatch on enum "
-         "ordering comparisons is a recorded known finding.",
+    note="[requires] clauses and enum values are typed positions of the module-level harness; the documented-vs-implemented "
+         "mismatch on enum ordering comparisons and enum-typed enum values are recorded known findings.",
     design="DESIGN.md section 3 C13",
 )
 
